@@ -189,6 +189,12 @@ var PipeFactory = func() (net.Conn, net.Conn) { return net.Pipe() }
 
 // Pipe returns the client end of a new in-memory connection served by s.
 func (s *Server) Pipe() net.Conn {
+	c, _ := s.PipeID()
+	return c
+}
+
+// PipeID is Pipe that also returns the connection id the Gate hook and the log will report.
+func (s *Server) PipeID() (net.Conn, int) {
 	c, srv := PipeFactory()
 	id := int(atomic.AddInt32(&s.nextConn, 1))
 	atomic.AddInt32(&s.open, 1)
@@ -197,7 +203,7 @@ func (s *Server) Pipe() net.Conn {
 	s.conns[id] = srv
 	s.mu.Unlock()
 	go s.serve(srv, id)
-	return c
+	return c, id
 }
 
 // ListenUnix serves connections on a unix socket path until the listener is closed.
